@@ -113,8 +113,8 @@ CLAIMS = {
     "C20": {
         "text": ("For every string within the stated length/alphabet bounds the solver shows extract_meta_var agrees with the specification table of the property -- with the sigil `$` and with the "
                  "2-byte and 4-byte expando characters the languages substitute for it --, parse_an_b with a reference reading of An+B, is_matched with `exists n >= 0: i = A*n+B`, and resolve_char "
-                 "with Python's slice index normalisation over the full i32 range. The real per-language pipeline extract_meta_var(pre_process_pattern(s)) is run by the model checker on a finite grid -- quick: 24 spellings "
-                 "($A $$A $_ $$_ $$$ $$$A $$$_ $_X ... $a $1 $ $$ $$$$A) x one representative language per expando class (Rust, C, Html, Java, Css); thorough: the six spellings the property names x each of the other 18 "
+                 "with Python's slice index normalisation over the full i32 range. The real per-language pipeline extract_meta_var(pre_process_pattern(s)) is run by the model checker on a finite grid -- 24 spellings "
+                 "($A $$A $_ $$_ $$$ $$$A $$$_ $_X ... $a $1 $ $$ $$$$A) x one representative language per expando class (Rust, C, Html, Java, Css) and the six spellings the property names x each of the other 18 "
                  "languages (one harness per language) -- and gives every spelling the same, language-independent meaning; and for every built-in language (symbolic index) no "
                  "language's expando character can occur in a meta-variable name."),
         "note": ("Strings <= 5 (7, 9 thorough) bytes over alphabets covering every character class the code distinguishes. The language crate is compiled without its generated C grammars; "
